@@ -22,13 +22,16 @@
 (*  - the environment: a spoke file vanishes, a hub file vanishes, the hub *)
 (*    compacts a received file, foreign same-size bytes appear at the      *)
 (*    spoke's hub path (through Receive, i.e. with a receipt, or raw).     *)
-(* A file is two chunks long; the resume checkpoint is 0 or 1 chunk.       *)
+(* A file is Chunks chunks long; a short body adds one chunk to the staged  *)
+(* prefix (none when a single chunk is left); checkpoint in 0..Chunks-1.    *)
 (* Files are numbered 1..NFiles; the higher number is the newer partition  *)
 (* and is therefore offered and sent first.                                *)
 (***************************************************************************)
 EXTENDS Naturals, Sequences, FiniteSets, TLC, Json
 
 CONSTANTS NFiles, MaxRuns, MaxFaults, MaxCrash, MaxEnv, MaxAttempts, SettleRuns, Emit,
+          Chunks,       \* file length in chunks (3: two truncation points)
+          PutAllowed,   \* transport faults a PutFile may suffer (generation bias; MC uses all)
           MinRuns,      \* faults may stop only after this many runs (generation bias; MC uses 0)
           EnvAllowed    \* environment actions the configuration may use (generation bias; MC uses all)
 
@@ -37,10 +40,10 @@ Files == 1..NFiles
 VARIABLES spoke,     \* [Files -> {"present","gone"}]
           led,       \* [Files -> ledger state or "none" (no row)]
           att,       \* [Files -> Nat]  attempts column
-          ck,        \* [Files -> 0..1] bytes_sent (resume checkpoint, in chunks)
+          ck,        \* [Files -> 0..Chunks-1] bytes_sent (resume checkpoint, in chunks)
           hubfile,   \* [Files -> {"none","own","foreign"}]  content exposed at the hub's final path
           idx,       \* [Files -> {"none","own","foreign","ownC"}]  receipt in sync_received (ownC = compacted_at set)
-          staged,    \* [Files -> 0..1] chunks in the hub's staging .part
+          staged,    \* [Files -> 0..Chunks-1] chunks in the hub's staging .part
           pc, qPresent, qConflict, qMissing, cur, off, res,   \* agent control state of the running pass
           phase, run, faults, crashes, envs, settle,          \* budgets
           w, c,      \* ledger writes / hub calls of the running pass (history only)
@@ -206,18 +209,20 @@ Send ==           \* sendOne: MarkInFlight (attempts + 1); the offset is the che
 \* ixok = FALSE makes HubIndex.Record fail.  Result: [k, n, hf, ix, st]
 Recv(f, o, b, ixok) ==
     LET same == [k |-> "x", n |-> 0, hf |-> hubfile[f], ix |-> idx[f], st |-> staged[f]] IN
-    IF idx[f] = "ownC" THEN [same EXCEPT !.k = "done", !.n = 2]                 \* compacted receipt, same digest
+    IF idx[f] = "ownC" THEN [same EXCEPT !.k = "done", !.n = Chunks]                 \* compacted receipt, same digest
     ELSE IF hubfile[f] = "own"                                                  \* resolveExisting: same digest
-      THEN IF ixok THEN [same EXCEPT !.k = "done", !.n = 2, !.ix = "own"]       \* re-record
+      THEN IF ixok THEN [same EXCEPT !.k = "done", !.n = Chunks, !.ix = "own"]       \* re-record
                    ELSE [same EXCEPT !.k = "err"]
     ELSE IF hubfile[f] = "foreign" THEN [same EXCEPT !.k = "conflict"]          \* never overwrite
     ELSE IF o > 0 /\ staged[f] # o THEN [same EXCEPT !.k = "partial", !.n = staged[f]]   \* hub's own offset
-    ELSE IF b = "short"   THEN [same EXCEPT !.k = "partial", !.n = 1, !.st = 1]
+    ELSE IF b = "short"   THEN LET got == o + (IF Chunks - o > 1 THEN 1 ELSE 0) IN   \* stage / append what arrived
+                               [same EXCEPT !.k = "partial", !.n = got, !.st = got]
     ELSE IF b = "corrupt" THEN [same EXCEPT !.k = "mismatch", !.st = 0]         \* verify before promote
-    ELSE IF ixok THEN [same EXCEPT !.k = "done", !.n = 2, !.hf = "own", !.ix = "own", !.st = 0]
+    ELSE IF ixok THEN [same EXCEPT !.k = "done", !.n = Chunks, !.hf = "own", !.ix = "own", !.st = 0]
                  ELSE [same EXCEPT !.k = "err", !.hf = "own", !.st = 0]          \* promoted, receipt lost
 
-PutFaults == {"none", "dropBefore", "dropAfter", "short", "corrupt", "backpressure", "idxfail"}
+\* shortDrop = the body is cut short AND the hub's (partial) answer is lost
+PutFaults == {"none", "dropBefore", "dropAfter", "short", "shortDrop", "corrupt", "backpressure", "idxfail"}
 
 Put(fault) ==
     /\ UNCHANGED seeded
@@ -226,14 +231,14 @@ Put(fault) ==
     /\ LET f == cur
            unreadable == spoke[f] = "gone"       \* the body cannot be read: the request never reaches the hub
            toHub == ~unreadable /\ fault \notin {"dropBefore", "backpressure"}
-           body  == IF fault \in {"short", "corrupt"} THEN fault ELSE "full"
+           body  == IF fault \in {"short", "shortDrop"} THEN "short" ELSE IF fault = "corrupt" THEN "corrupt" ELSE "full"
            r     == Recv(f, off, body, fault # "idxfail")
            commit == toHub /\ r.hf = "own" /\ hubfile[f] # "own" IN
          /\ IF toHub
               THEN /\ hubfile' = [hubfile EXCEPT ![f] = r.hf] /\ idx' = [idx EXCEPT ![f] = r.ix]
                    /\ staged' = [staged EXCEPT ![f] = r.st]
               ELSE UNCHANGED HubVars
-         /\ res' = IF unreadable \/ fault \in {"dropBefore", "dropAfter"} THEN [k |-> "err", n |-> 0]
+         /\ res' = IF unreadable \/ fault \in {"dropBefore", "dropAfter", "shortDrop"} THEN [k |-> "err", n |-> 0]
                    ELSE IF fault = "backpressure" THEN [k |-> "backpressure", n |-> 0]
                    ELSE [k |-> r.k, n |-> r.n]
          /\ flags' = flags \cup (IF commit /\ (hubfile[f] # "none" \/ idx[f] = "ownC") THEN {"stored_twice"} ELSE {})
@@ -307,7 +312,7 @@ Next ==
     \/ StartPass \/ StopFaults \/ Recover \/ Discover \/ Page
     \/ \E ft \in {"none", "drop", "dropAfter"} : Reconcile(ft)
     \/ MarkPresent \/ MarkConflict \/ Send
-    \/ \E ft \in PutFaults : Put(ft)
+    \/ \E ft \in PutFaults \cap ({"none"} \cup PutAllowed) : Put(ft)
     \/ After \/ Fail \/ Crash
     \/ \E k \in EnvKinds \cap EnvAllowed, f \in Files : Env(k, f)
 
@@ -318,7 +323,7 @@ Spec == Init /\ [][Next]_vars
 TypeOK ==
     /\ \A f \in Files : /\ led[f] \in {"none", "pending", "in_flight", "synced", "failed", "skipped"}
                         /\ hubfile[f] \in {"none", "own", "foreign"} /\ idx[f] \in {"none", "own", "foreign", "ownC"}
-                        /\ ck[f] \in 0..1 /\ staged[f] \in 0..1
+                        /\ ck[f] \in 0..(Chunks-1) /\ staged[f] \in 0..(Chunks-1)
 DocumentedEdgesOnly  == "bad_edge" \notin flags
 SyncedOnlyWhenHeld   == "synced_without_copy" \notin flags
 StoredAtMostOnce     == "stored_twice" \notin flags
